@@ -138,6 +138,16 @@ mod misc {
 
             let seq_container = self.get_state().get_current_pointer().container.unwrap();
 
+            // Every element of a sequence is content of the container that asks
+            // for the index (a story file cannot name more elements than it has)
+            let elements_available =
+                seq_container.content.len() + seq_container.named_content.len();
+            if num_elements > 0 && num_elements as usize > elements_available {
+                return Err(StoryError::InvalidStoryState(format!(
+                    "Sequence of {num_elements} elements in a container that holds {elements_available}"
+                )));
+            }
+
             let seq_count = if let Some(v) =
                 Value::get_value::<i32>(self.get_state_mut().pop_evaluation_stack()?.as_ref())
             {
